@@ -38,7 +38,7 @@ def tabulate():
     epos = {e: i for i, e in enumerate(els)}
     apos = {a: i for i, a in enumerate(ats)}
     gpos = {g: i for i, g in enumerate(gs)}
-    tokens, tindex, rows = [], {}, []
+    tokens, tindex, rows, first = [], {}, [], []
     for e in els:
         row = []
         for t in ats:
@@ -54,6 +54,7 @@ def tabulate():
                 if tok not in tindex:
                     tindex[tok] = len(tokens)
                     tokens.append(tok)
+                    first.append((e, t, g))
                 row.append(tindex[tok])
         rows.append(row)
     settbl = []
@@ -64,6 +65,18 @@ def tabulate():
             settbl.append((epos[d.element], apos[d.atype], gpos[d.geom]))
         except Exception:
             settbl.append(None)
+    # the writer must look at the CURRENT state: an atom that already wrote another token is re-assigned and asked again
+    get_after = []
+    for k in range(len(tokens)):
+        e, t, g = first[k]
+        e0, t0, g0 = first[(k + 1) % len(tokens)]
+        try:
+            a = Atom(e0, atype=t0, geom=g0)
+            a.get_mol2_type()
+            a.element, a.atype, a.geom = e, t, g
+            get_after.append(tindex.get(a.get_mol2_type(), len(tokens)))
+        except Exception:
+            get_after.append(len(tokens))
     d = Atom()
     default = (epos[d.element], apos[d.atype], gpos[d.geom])
     bts = list(BondType)
@@ -84,7 +97,16 @@ def tabulate():
             btindex[tok] = len(btokens)
             btokens.append(tok)
         bget.append(btindex[tok])
-    bset = []
+    bget_after = []
+    for i, b in enumerate(bts):
+        try:
+            bond = Bond(Atom(), Atom(), btype=bts[(i + 1) % len(bts)])
+            bond.get_mol2_type()
+            bond.btype = b
+            bget_after.append(btindex.get(bond.get_mol2_type(), len(btokens) + 50))
+        except Exception:
+            bget_after.append(len(btokens) + 50)
+    bset, bset_after = [], []
     for tok in btokens:
         b = Bond(Atom(), Atom())
         try:
@@ -92,8 +114,16 @@ def tabulate():
             bset.append(bpos[b.btype])
         except Exception:
             bset.append(None)
+        # the reader must act every time: same bond, same token again after the type was changed by hand
+        try:
+            b.btype = bts[(bpos[b.btype] + 1) % len(bts)]
+            b.set_mol2_type(tok)
+            bset_after.append(bpos[b.btype])
+        except Exception:
+            bset_after.append(None)
     return dict(els=els, ats=ats, gs=gs, tokens=tokens, rows=rows, settbl=settbl, default=default,
-                bts=bts, btokens=btokens, bget=bget, bset=bset, tindex=tindex, btindex=btindex,
+                bts=bts, btokens=btokens, bget=bget, bset=bset,
+                get_after=get_after, bget_after=bget_after, bset_after=bset_after, first=first, tindex=tindex, btindex=btindex,
                 epos=epos, apos=apos, gpos=gpos, bpos=bpos)
 
 
@@ -132,6 +162,12 @@ def gen_types(T):
     out.append("Definition bond_get : list N := [" + "; ".join(map(str, T["bget"])) + "].   (* per BondType: token index *)")
     out.append("Definition bond_set : list (option N) := [" + "; ".join("None" if b is None else f"Some {b}" for b in T["bset"])
                + "].   (* per token: BondType position of a fresh Bond after set_mol2_type; None = it raised *)")
+    out.append("")
+    out.append("(* statelessness: the same questions asked of an object that already answered another one *)")
+    out.append("Definition get_after : list N := [\n  " + wrap(map(str, T["get_after"])) + "].   (* per token k: an atom that wrote token k+1, re-assigned to the first triple of k, writes ... *)")
+    out.append("Definition bond_get_after : list N := [" + "; ".join(map(str, T["bget_after"])) + "].   (* per BondType: a bond that wrote the next type's token, re-assigned, writes ... *)")
+    out.append("Definition bond_set_after : list (option N) := [" + "; ".join("None" if b is None else f"Some {b}" for b in T["bset_after"])
+               + "].   (* per token: set, change btype by hand, set the same token again *)")
     return "\n".join(out) + "\n"
 
 
@@ -587,6 +623,23 @@ def table_search(T, limit=40):
             yield "C07:bond-fixed-point:" + tok, f"BondType.{name} writes {tok!r}, read back and written again as {T['btokens'][T['bget'][s]]!r}", rp
         elif name in EXPRESSIBLE and s != b:
             yield "C07:bond-type:" + name, f"BondType.{name} writes {tok!r}, read back as {T['bts'][s].name}", rp
+    for k, got in enumerate(T["get_after"]):
+        if got != k:
+            e, t, g = T["first"][k]
+            gt = T["tokens"][got] if got < len(T["tokens"]) else "<other>"
+            yield ("C07:atom-writer-stale", f"an atom that already wrote a token and is then set to ({e.name}, {t.name}, {g.name}) writes {gt!r}, "
+                   f"a fresh one writes {T['tokens'][k]!r}", {"kind": "after", "which": "get_after", "k": k})
+            break
+    for b, got in enumerate(T["bget_after"]):
+        if got != T["bget"][b]:
+            gt = T["btokens"][got] if got < len(T["btokens"]) else "<other>"
+            yield ("C07:bond-writer-stale:" + T["bts"][b].name, f"a bond that already wrote a token and is then set to BondType.{T['bts'][b].name} writes {gt!r}, "
+                   f"a fresh one writes {T['btokens'][T['bget'][b]]!r}", {"kind": "after", "which": "bget_after", "k": b})
+    for k, got in enumerate(T["bset_after"]):
+        if got != T["bset"][k]:
+            yield ("C07:bond-reader-stale:" + T["btokens"][k], f"set_mol2_type({T['btokens'][k]!r}) on a bond that was given this token before and changed "
+                   f"by hand since leaves {None if got is None else T['bts'][got].name}, a fresh bond becomes "
+                   f"{None if T['bset'][k] is None else T['bts'][T['bset'][k]].name}", {"kind": "after", "which": "bset_after", "k": k})
     spec = {"Single": "1", "Double": "2", "Triple": "3", "Aromatic": "ar", "Amide": "am", "Dummy": "du", "Unknown": "un", "NotConnected": "nc"}
     for name, tok in spec.items():
         b = [i for i, x in enumerate(T["bts"]) if x.name == name]
@@ -796,7 +849,7 @@ def replay(ctx, data):
         for sig, what, rp in sybyl_search(T):
             if rp.get("kind") == "triple" and (rp["e"], rp["t"], rp["g"]) == (data["e"], data["t"], data["g"]):
                 out.append(vlib.Violation(sig, what))
-    elif k in ("bond", "bondtok", "sybyl"):
+    elif k in ("bond", "bondtok", "sybyl", "after"):
         for sig, what, rp in itertools.chain(table_search(T), sybyl_search(T)):
             if rp == data:
                 out.append(vlib.Violation(sig, what))
